@@ -11,6 +11,11 @@ Oracle: the model `id -> object` is the truth - what a correct daemon must do; t
 leaves on objects are an implementation detail and are never read here.  After every mutating step the daemon's own
 report (DaemonObject.registered(), called in-process) is compared with the model; the run stops at its first violation
 (after a divergence the rest of the history has no defined expectation).
+
+Violation keys are "<tier>:<context>": tier = "extended" iff an object or id the finding is about took part in an
+effective force earlier (forced replacement of an id, forced second id of one object), else "core"; context = how the
+object lost its registration (unregister-by-id | unregister-by-object | replaced | never-registered), or
+registered / registered-multi, or the step after which the daemon's report diverged.
 """
 import gc
 import json
@@ -19,7 +24,7 @@ import weakref
 from ..world import World
 from .. import sched as S
 from .common import Server, SERIALIZERS
-from ..seams import config, CL, SV
+from ..seams import CL
 import Pyro5.errors as E
 from . import registry_objs as O
 
@@ -54,6 +59,7 @@ class _Run:
         self.gen_ids = []
         self.taint_x = set()     # objects / ids that took part in an *effective* force (one an unforced call would
         self.taint_id = set()    # have refused): forced replacement of an id, forced second id of an object
+        self.multi_x = set()     # objects that were registered under two or more ids at the same time
         self.remote = 0
         self.accepted = 0
         self._ix, self._iids = [], []
@@ -75,7 +81,11 @@ class _Run:
         self._iids += list(ids)
 
     def viol(self, kind, key, msg):
-        self.ctx.violate(kind, "%s:%s" % (self.tier(list(self._ix), list(self._iids)), key),
+        tier = self.tier(list(self._ix), list(self._iids))
+        if tier == "extended" and any(x in self.multi_x for x in self._ix if x is not None):
+            # one root cause (the marks on an object track only its latest id) shows under many contexts: one key
+            key = "multi-id"
+        self.ctx.violate(kind, "%s:%s" % (tier, key),
                          "step %d %s: %s" % (self.i, json.dumps(self.op, sort_keys=True), msg))
         raise _Stop()
 
@@ -279,6 +289,8 @@ class _Run:
                 self.taint_x.add(old[0])
             ctx.probe("forced")
         self.table[new_id] = (xk, weak)
+        if len(self.ids_of(xk)) >= 2:
+            self.multi_x.add(xk)     # this object has (had) several ids at once: only a forced registration can do that
         if old is not None and old[0] != xk and not self.ids_of(old[0]):
             self.lost[old[0]] = "replaced"
         self.lost.pop(xk, None)
